@@ -26,10 +26,12 @@ UNIT = {
         uf('sort', file=UC, where='out', loops=4),
     ],
     'stubs': ['none: the real sort with the real accessors; `new unsigned[maxind]` is malloc (failure ends the path, as std::bad_alloc does)'],
-    'assumptions': ['BOUNDED: sparse nodes of at most SB_N = 3 entries with indexes below 4; not counted as proved'],
+    'assumptions': ['BOUNDED: sparse nodes of at most SB_N = 3 entries with indexes below 4 (thorough tier: 4 entries, indexes below 6); not counted as proved'],
     'unverified_surroundings': {'C01': ['callers of sort (forest::createReducedNode: U-reduce uses it through a stub)'], 'C02': []},
     'jobs': [
         job('sort_mt', ['C01', 'C02']),
         job('sort_ev', ['C01', 'C02'], defines=['SB_EV']),
+        job('sort_mt_4', ['C01', 'C02'], defines=['SB_BIG'], unwind=8, tier='thorough', timeout=3600),
+        job('sort_ev_4', ['C01', 'C02'], defines=['SB_EV', 'SB_BIG'], unwind=8, tier='thorough', timeout=3600),
     ],
 }
